@@ -1326,7 +1326,28 @@ func runCallOrder(c *core.Ctx) {
 			// say) is not marked dirty, so its rollback copy keeps the callee's value and a later abort of the caller
 			// resurrects it
 			g := e.Graph(fn)
-			if bb := g.BlockOfStmt(fs, cfg.KindForBody); bb != nil && g.PassesWithinUnlessExit(bb, fs.Body.Pos(), fs.Body.End(), isRestore) {
+			// leaving the loop because the iterator is exhausted (`if it.Done() { break }` in a condition-less loop) is not
+			// an iteration
+			doneBreak := func(k ast.Node) bool {
+				br, isBr := k.(*ast.BranchStmt)
+				if !isBr || br.Tok != token.BREAK {
+					return false
+				}
+				enc := g.Enclosing(k, func(m ast.Node) bool { _, isIf := m.(*ast.IfStmt); return isIf })
+				is, _ := enc.(*ast.IfStmt)
+				return is != nil && len(iteratorDoneCalls(info, is.Cond)) > 0 && len(is.Body.List) == 1
+			}
+			_ = doneBreak
+			start, lo := g.BlockOfStmt(fs, cfg.KindForBody), fs.Body.Pos()
+			if fs.Cond == nil && len(fs.Body.List) > 0 {
+				if is, isIf := fs.Body.List[0].(*ast.IfStmt); isIf && is.Else == nil && len(iteratorDoneCalls(info, is.Cond)) > 0 && len(is.Body.List) == 1 {
+					if br, isBr := is.Body.List[0].(*ast.BranchStmt); isBr && br.Tok == token.BREAK {
+						// the iteration proper starts behind the exhaustion test
+						start, lo = g.BlockOfStmt(is, cfg.KindIfDone), is.End()
+					}
+				}
+			}
+			if start != nil && g.PassesWithinUnlessExit(start, lo, fs.Body.End(), isRestore) {
 				restore = true
 			}
 			return true
